@@ -42,12 +42,21 @@ DOCS = [
     ('default', 'strict', '\\textbf{a} \\verb|x| $\\frac{a}{b}$ \\\\*[2mm] \\item[x]', ['m', 's', 'o'], False),
     ('default', 'tolerant', '\\begin{verbatim}x{\\end{verbatim} \\sqrt[3]{x} \\begin{itemize', ['m', 'o'], False),
     ('default', 'strict', '\\section*{T} \\cite[a][b]{k} \\newcommand*{\\x}[1][d]{#1}', ['s', 'o', 'm'], False),
+    # contexts extended while parsing: environment g defines \\entry{}{} and the specials !! for its body only
+    ('kdyn', 'strict', '\\begin{g}\\entry{a}{b} !! \\m{x}\\end{g} \\z', ['m'], False),
+    ('kdyn', 'strict', '\\entry{a}{b} !! c', [], False),
+    ('kdyn2', 'strict', 'a \\begin{e}[o]\\begin{g}\\entry{a}{b}!!\\end{g}\\end{e}', ['o', 'm'], False),
+    ('kdyn2', 'tolerant', '\\entry{a}{b}!! \\m', ['m'], False),
 ]
+LOCAL_DEFS = {17: ['entry', '!!'], 19: ['entry', '!!']}
+FREE_NAMES = {18: ['entry', '!!'], 20: ['entry', '!!']}
 
 MC = """---- MODULE MC_ParseHistory ----
 EXTENDS ParseHistory
 UsesDef == %(uses)s
 CtxOfDef == %(ctxof)s
+LocalDefsDef == %(local)s
+FreeNamesDef == %(free)s
 ====
 """
 CFG = """CONSTANTS
@@ -55,11 +64,14 @@ CFG = """CONSTANTS
   Uses <- UsesDef
   NestedVerb = {%(nested)s}
   CtxOf <- CtxOfDef
+  LocalDefs <- LocalDefsDef
+  FreeNames <- FreeNamesDef
   MaxLen = %(maxlen)d
   Variant = "%(variant)s"
   Emit_ = %(emit)s
 SPECIFICATION Spec
 INVARIANT Pure
+INVARIANT DbUnchanged
 INVARIANT Emit
 PROPERTY CacheMonotone
 CHECK_DEADLOCK FALSE
@@ -69,7 +81,8 @@ CHECK_DEADLOCK FALSE
 def mc():
     uses = ' @@ '.join('(%d :> {%s})' % (i + 1, ', '.join('"%s"' % k for k in d[3])) for i, d in enumerate(DOCS))
     ctxof = ' @@ '.join('(%d :> "%s")' % (i + 1, d[0]) for i, d in enumerate(DOCS))
-    return MC % dict(uses=uses, ctxof=ctxof)
+    names = lambda tab: ' @@ '.join('(%d :> {%s})' % (i + 1, ', '.join('"%s"' % x for x in tab.get(i + 1, []))) for i in range(len(DOCS)))
+    return MC % dict(uses=uses, ctxof=ctxof, local=names(LOCAL_DEFS), free=names(FREE_NAMES))
 
 
 def cfg(maxlen, variant='intended', emit=True, docs=None):
@@ -195,6 +208,10 @@ def run(ctx):
     rc = common.run_tlc('MC_ParseHistory', cfg(3, 'as_implemented', emit=False), mc_text=text, workers=2, timeout=300)
     ctx.add_tlc(rc, 'control: Variant=as_implemented')
     ctx.control('verbatim nesting counter kept on the cached parser violates Pure', rc.violated == 'Pure', str(rc.violated))
+    rc = common.run_tlc('MC_ParseHistory', cfg(3, 'ext_leaks', emit=False), mc_text=text, workers=2, timeout=300)
+    ctx.add_tlc(rc, 'control: Variant=ext_leaks')
+    ctx.control('a context extension that writes into the extended database violates DbUnchanged / Pure',
+                rc.violated in ('DbUnchanged', 'Pure'), str(rc.violated))
     base = {str(k): v for k, v in baselines().items()}
     ctx.notes['baseline_interpreters'] = len(base)
     job = dict(payload=dict(baselines=base), main='MC_ParseHistory', mc=text, cfg=cfg(3 if quick else 4),
